@@ -24,14 +24,14 @@ CHECKS["C06"] = dict(technique="property-based testing against reference [k]P wi
                      note="Trusted: Python integers, reference group law. Eigenvalue methods only get subgroup bases; PowersOfX digits in the documented range.",
                      ref="DESIGN.md section 4, C06")
 
-CHECKS["C03"] = dict(technique="differential property-based testing: every back end executable on the host (x86-64 BMI2 and baseline asm by symbol, dispatched members with either routine set, portable 64/32-bit words) against each other and a Python integer oracle; ARM sources under instruction interpreters",
+CHECKS["C03"] = dict(technique="differential property-based testing: every back end executable on the host (x86-64 BMI2 and baseline asm by symbol, dispatched members with either routine set, portable 64/32-bit words, the ARM binding layers compiled for the host) against each other and a Python integer oracle; ARM assembly sources under instruction interpreters; whole-API transcripts across back ends",
                      note="Trusted: Python integers; for the ARM sources our interpreters of the ~20 mnemonics used (no ARM hardware/qemu in the sandbox).",
                      ref="DESIGN.md section 4, C03")
 CHECKS["C18"] = dict(technique="differential property-based testing over the (operation x aliasing pattern) matrix generated from shim/ops.def, the irregular C++ signatures and the C API; aliased call vs distinct-output call",
                      note="Trusted: the distinct-output call as specification (tied to the reference by C02-C07). __restrict operands are never aliased.",
                      ref="DESIGN.md section 4, C18")
 
-CHECKS["C01"] = dict(technique="property-based testing with an exact-value oracle: from-scratch reference pairing (affine Miller loop, plain final exponent) and known discrete logs, e_lib([a]g1,[b]g2) == GTref^(ab); full reference pairing on a drawn subset",
+CHECKS["C01"] = dict(technique="property-based testing with an exact-value oracle: from-scratch reference pairing (affine Miller loop, plain final exponent) and known discrete logs, e_lib([a]g1,[b]g2) == GTref^(ab); full reference pairing on a drawn subset; every host-buildable configuration (64/32-bit words, both x86-64 routine sets, ARM binding layers)",
                      note="Trusted: Python integers, reference pairing (self-tested for order r and bilinearity without the library; calibrated only through the published generator constant which is itself a checked output).",
                      ref="DESIGN.md section 4, C01")
 CHECKS["C07"] = dict(technique="property-based testing against reference GT powers; structured random streams that force digit and whole-value rejections (incl. y = r); chi-square uniformity check",
@@ -75,7 +75,7 @@ CHECKS["C17"] = dict(technique="coverage-guided fuzzing (libFuzzer + ASan + UBSa
                      note="Trusted: sanitizer detection of the access classes; 32-bit-word configuration on a 64-bit host; fuzz campaigns are pinned only approximately by -seed (saved artifacts are the reproducible unit).",
                      ref="DESIGN.md section 4, C17")
 
-CHECKS["C19"] = dict(technique="exhaustive enumeration of layout static_asserts over five target ABIs plus generated differential testing of every extern-C function against the C++ operation it forwards to (byte-identical outputs, equal random streams), whole-history transcripts for the schemes",
+CHECKS["C19"] = dict(technique="exhaustive enumeration of layout static_asserts over five target ABIs plus generated differential testing of every extern-C function against the C++ operation it forwards to (byte-identical outputs, equal random streams), whole-history transcripts for the schemes, marshalling wrappers on synthetic objects and corrupted buffers",
                      note="Trusted: clang's layout computation for the cross targets (compile-only); the Go layer cannot be built here.",
                      ref="DESIGN.md section 4, C19")
 
